@@ -21,7 +21,7 @@ def run(tier):
     chk.add_tlc(r, "kernel_mc")
     if r["violated"]:
         chk.violation("spec:mclmc", "Mclmc kernel invariant %s violated" % r["violated"], r["out"][-2000:])
-    n = 150 if tier == "quick" else 1500
+    n = 150 if tier == "quick" else 12000
     raw = record_runs(scenarios.mclmc_scenarios(C.seed() * 86028121 + 31, n), "c18")
     runs = []
     draws = nontriv = esh = 0
